@@ -153,8 +153,9 @@ package dns
 // the octet cannot count, 256 octets or more, is outside the record type)
 //@ func (*NSEC3).parse [C05 C07]
 //@   stored at "rr.SaltLength = " saltlen: len(l.token) < 512 ==> value == len(l.token) / 2 [C05]
-// (five bits per base32hex character, no padding)
-//@   stored at "rr.HashLength = " hashlen: len(l.token) * 5 / 8 < 256 ==> value == len(l.token) * 5 / 8 [C05]
+// (the decoded length of the token under the unpadded base32hex encoding, five bits per character: trusted to be
+// what base32HexNoPadEncoding.DecodedLen returns)
+//@   stored at "rr.HashLength = " hashlen: value == callres("DecodedLen") % 256 && callarg("DecodedLen", 1) == len(l.token) [C05]
 //@ func (*NSEC3PARAM).parse [C05 C07]
 //@   stored at "rr.SaltLength = " saltlen: len(l.token) < 512 ==> value == len(l.token) / 2 [C05]
 //@ func (*HIP).parse [C05 C07]
